@@ -195,6 +195,30 @@ CHECKS = {
         note="Numeric accuracy of the `sunrise` crate is outside the technique; only order / consistency is decided. |lat| > 60 not claimed.",
         design_ref="8/C11",
     ),
+    "C12": dict(
+        category="model_checking",
+        technique="TLA+ spec PyBinding.tla (constructor decision table M9, zone rule for returned datetimes); TLC checks the table total / deterministic and enumerates the argument space; every case is executed on the real Python extension and on the Rust core for the context the spec names; Trace_PyBinding compares",
+        text="Gen_PyBinding: timezone x country (valid / lower case / unknown / long) x coords (5 valid incl. pole and antimeridian, out of range, "
+             "NaN) x auto_country x auto_timezone ({omitted, None, True, False}) x 7 expressions (valid, invalid, the former panic witness): "
+             "3168 cases with the outcome (exception class by precedence, or holidays source + locale kind) the table defines. The driver "
+             "(CPython 3.11, extension built from /repo's working tree) constructs each, checks the exception class, validate(), str / repr / "
+             "normalize, and queries state / is_* / next_change / intervals (open-ended: None at 10000-01-01; bounded) with naive and aware "
+             "datetimes (UTC, Asia/Tokyo, context zone); `ohv core` evaluates the same through the Rust API; TLC requires equality and "
+             "the zone rule (context zone, else input zone, else naive).",
+        note="Trusted: PyBinding.tla's reading of lib.rs; zoneinfo; gap/fold inputs are C09's; fixed-offset tzinfo (TypeError today) left open.",
+        design_ref="8/C12",
+    ),
+    "C18": dict(
+        category="exploration",
+        technique="TLA+ spec Purity.tla (threads x lazily initialised statics) model checked for single initialisation, no partial read and termination; TLC-enumerated schedule skeletons are each run in a fresh harness process with racing threads and validated by Trace_Purity against a sequential reference",
+        text="MC_Purity: all interleavings of 3 threads x 2 calls over 3 statics. Binding: 80 (quick) / 2500 (thorough) of the 3133 skeletons "
+             "(2 threads x 2 calls, 3 threads x 1 first use, one 8-thread program), each in a fresh process so that the embedded holiday "
+             "databases, country boundaries, time-zone finder / map and the Easter warning latch are initialised under the race; every "
+             "response (incl. evaluation of a shared value, of clones interleaved with other expressions, normalisation) must equal the "
+             "sequential single-threaded response; repeated sequential calls must agree.",
+        note="Real interleavings inside LazyLock/Once are provoked, not controlled; the model assumes std's guarantees (stated in DESIGN.md).",
+        design_ref="8/C18",
+    ),
 }
 
 NOT_APPLICABLE = {}
